@@ -44,9 +44,6 @@ def demo(prop, which, tag):
         files += sorted(glob.glob(os.path.join(WT, g)))
     extra = []
     txt = open(src).read()
-    if '--wrap' in txt:
-        m = re.search(r'(-Wl,--wrap=[\w,=-]+)', txt)
-        if m: extra.append(m.group(1))
     cmd = ['gcc', '-std=gnu11', '-g', '-O1', '-fsanitize=address', '-fno-omit-frame-pointer', '-D_GNU_SOURCE', '-DLIBMODULE_LOG_CTX=CORE', '-w'] + \
           ['-I' + os.path.join(WT, i) for i in INC] + [src] + files + extra + ['-lpthread', '-ldl', '-o', exe]
     rc, out = sh(cmd, cwd=WT)
